@@ -300,3 +300,93 @@ func W2Size() (int, int) {
 	p, s := w2Cuts()
 	return len(p), len(s)
 }
+
+// W2Heads are short foreign continuations: what follows the injected byte in family W2T.
+var W2Heads = []string{"", "e5", "E+1", "5", ".5", "0", "-1", "1e5", `"x"`, "null", "true", "ull", "rue", "alse", "[", "{", "]", "}", ",0", ":0",
+	`,"z":0`, " ", `"`, `\n"`, `u0041"`, "x", "[]", "{}", `"k":1`, ",", ":", "e", ".", "-", "+1", "1", " 1", `\"`, "\\", "/"}
+
+// closersFor returns what closes the containers (and string) left open by prefix.
+func closersFor(prefix string) string {
+	var stack []byte
+	inStr, esc := false, false
+	for i := 0; i < len(prefix); i++ {
+		ch := prefix[i]
+		if inStr {
+			switch {
+			case esc:
+				esc = false
+			case ch == '\\':
+				esc = true
+			case ch == '"':
+				inStr = false
+			}
+			continue
+		}
+		switch ch {
+		case '"':
+			inStr = true
+		case '[':
+			stack = append(stack, ']')
+		case '{':
+			stack = append(stack, '}')
+		case ']', '}':
+			if len(stack) > 0 {
+				stack = stack[:len(stack)-1]
+			}
+		}
+	}
+	out := ""
+	if inStr {
+		out = `"`
+	}
+	for i := len(stack) - 1; i >= 0; i-- {
+		out += string(stack[i])
+	}
+	return out
+}
+
+var w2tBytesQuick = []byte{' ', '\t', '\n', '\r', 0x0b, 0x0c, ',', ':', '"', '0', 'e', '.', '-', ']', '}', 0x00}
+
+// W2T "tail" family: every distinct prefix cut of the reduced seeds + one injected byte (or
+// none) + a short foreign continuation + exactly the closers the prefix needs. It targets
+// two-deviation inputs such as {"a":0,"k":null<TAB>e5} that a retargeted transition accepts
+// (found by the mechanical mutation survey: single-fault neighbours and a thin splice sample miss
+// them, and a garbage tail only shows as an ACCEPTED document when the containers are closed).
+func W2T(allBytesToo bool, sink Sink) {
+	pres, _ := w2Cuts()
+	inject := w2tBytesQuick
+	if allBytesToo {
+		inject = ClassBytes
+	}
+	closers := make([]string, len(pres))
+	for i, p := range pres {
+		closers[i] = closersFor(p)
+	}
+	buf := make([]byte, 0, 512)
+	c := &h.Case{Family: "W2T"}
+	c.DescFn = func(c *h.Case) string {
+		inj := "nothing"
+		if c.P[1] >= 0 {
+			inj = fmt.Sprintf("0x%02x", c.P[1])
+		}
+		return fmt.Sprintf("prefix %q + %s + head %q + closers %q", pres[c.P[0]], inj, W2Heads[c.P[2]], closers[c.P[0]])
+	}
+	for pi, pre := range pres {
+		for hi, head := range W2Heads {
+			for bi := -1; bi < len(inject); bi++ {
+				buf = append(buf[:0], pre...)
+				b := -1
+				if bi >= 0 {
+					b = int(inject[bi])
+					buf = append(buf, inject[bi])
+				}
+				buf = append(buf, head...)
+				buf = append(buf, closers[pi]...)
+				c.Input = buf
+				c.Desc = ""
+				c.P = [4]int{pi, b, hi, 0}
+				sink(c)
+			}
+		}
+	}
+}
